@@ -10,7 +10,7 @@ from vpkit import common, pairs, zoo
 
 ID = "C07"
 N = {"quick": 130, "thorough": 5000}
-BUDGET = {"quick": 240.0, "thorough": 1500.0}
+BUDGET = {"quick": 240.0, "thorough": 700.0}
 RULE = ("case = (zoo input, mostly multi-tree, method, option set, one power-of-two and one "
         "general coordinate factor c); distinct by (topology hash, method, options, factors); "
         "non-trivial = base and both scaled runs returned and all outputs were compared")
